@@ -1020,6 +1020,10 @@ pub fn try_add_op(r: &mut Rng, cfg: &GenCfg, st: &mut GenState) {
             let h = r.below(n);
             pre.push((h, r.chance(1, 2)));
         }
+        // (see above) the operand of a sum(0) must be tracked at the moment of use, toggles of this statement included
+        if kind.is_alias() && pre.iter().any(|(h, on)| *h == args[0] && !*on) {
+            pre.clear();
+        }
     }
     st.p.nodes.push(Node::Op { kind, args, post, pre });
     st.refv.push(t);
